@@ -39,25 +39,46 @@
 #ifndef DT_MAXP
 #define DT_MAXP 2
 #endif
-#ifndef DT_KIDS
-#define DT_KIDS 3
+#ifndef DT_NK
+#define DT_NK 3
 #endif
-#ifndef DT_GKIDS
-#define DT_GKIDS 2
+#ifndef DT_NEST
+#define DT_NEST 3
+#endif
+#ifndef DT_NG
+#define DT_NG 0
 #endif
 #define NN 6                       /* node 0 = root, 1..3 = children, 4..5 = grandchildren */
 
 /* ---- recording allocation funnels [ASSUMED: pass-through as base.c; allocation may fail] ------------------------ */
 static unsigned char *g_dt_new; static size_t g_dt_new_size; static unsigned g_dt_malloc_calls, g_dt_free_new, g_dt_free_other;
 static unsigned char *g_old[NN]; static unsigned g_free_old[NN];
+/* The new buffer is carved out of an object of CONSTANT size DT_OBJ (a dynamic object of symbolic size costs CBMC 12 M
+ * clauses even for a single leaf): placed at the START of the object (default: every access BEFORE the buffer - the
+ * serializer writes right to left - is an out-of-bounds access for CBMC) or, -DDT_PLACE_END, at its END (every access
+ * BEHIND the buffer is).  The two placements together give exact bounds; in each, writes into the slack on the other
+ * side are detected through a witness octet of the slack. */
+#define DT_OBJ 64
+static unsigned char *g_dt_base; static size_t g_dt_sw; static unsigned char g_dt_slack0;
 void *KSI_malloc(size_t size) {
 	g_dt_malloc_calls++; g_dt_new_size = size;
-	g_dt_new = nondet_bool() ? NULL : malloc(size);
+	__CPROVER_assert(size <= DT_OBJ, "harness bound: the encoding fits the model object");
+	if (nondet_bool()) { g_dt_new = NULL; return NULL; }
+	g_dt_base = malloc(DT_OBJ);
+#ifdef DT_PLACE_END
+	g_dt_new = g_dt_base + (DT_OBJ - size);
+	g_dt_sw = nondet_size(); __CPROVER_assume(g_dt_sw < DT_OBJ);
+	g_dt_slack0 = g_dt_base[g_dt_sw];
+#else
+	g_dt_new = g_dt_base;
+	g_dt_sw = nondet_size(); __CPROVER_assume(g_dt_sw < DT_OBJ);
+	g_dt_slack0 = g_dt_base[g_dt_sw];
+#endif
 	return g_dt_new;
 }
 void KSI_free(void *p) {
 	if (p == NULL) return;
-	if (p == (void *)g_dt_new) g_dt_free_new++;
+	if (p == (void *)g_dt_new) { g_dt_free_new++; free(g_dt_base); return; }
 	else if (p == (void *)g_old[0]) g_free_old[0]++; else if (p == (void *)g_old[1]) g_free_old[1]++; else if (p == (void *)g_old[2]) g_free_old[2]++;
 	else if (p == (void *)g_old[3]) g_free_old[3]++; else if (p == (void *)g_old[4]) g_free_old[4]++; else if (p == (void *)g_old[5]) g_free_old[5]++;
 	else g_dt_free_other++;
@@ -66,6 +87,7 @@ void KSI_free(void *p) {
 
 /* ---- the tree: concrete node pool, two child lists [ASSUMED list behaviour: length / elementAt succeed in range] --- */
 static struct KSI_TlvElement_st N[NN], N0[NN];
+static _Bool g_nested_sem[NN];
 static KSI_LIST(KSI_TlvElement) L_root, L_nest;
 static size_t n_kids, n_g, nest;          /* children of the root; children of the nested child; which child is nested (>= n_kids: none) */
 static size_t dt_length(KSI_LIST(KSI_TlvElement) *l) { return l == &L_root ? n_kids : l == &L_nest ? n_g : 0; }
@@ -77,6 +99,7 @@ static int dt_elementAt(KSI_LIST(KSI_TlvElement) *l, size_t pos, KSI_TlvElement 
 }
 
 #include "fast_tlv.c"
+#include "env/memops_exact.h"
 #include "tlv_element.c"
 
 /* ---- reference layout (spec/tlv.h) -------------------------------------------------------------------------------- */
@@ -98,6 +121,7 @@ static int in_tree(size_t x) { return x == 0 || (x <= 3 && N0[0].subList != NULL
 static void mk_node(size_t x, _Bool nested_sem) {
 	struct KSI_TlvElement_st *e = &N[x];
 	memset(e, 0, sizeof(*e));
+	g_nested_sem[x] = nested_sem;
 	e->ref = nondet_size();
 	e->ftlv.tag = nondet_uint(); e->ftlv.is_nc = nondet_int(); e->ftlv.is_fwd = nondet_int(); e->ftlv.off = nondet_size();
 	__CPROVER_assume(e->ftlv.tag <= SPEC_TLV_MAX_TAG);                         /* tags 0..0x1fff */
@@ -112,7 +136,7 @@ static void mk_node(size_t x, _Bool nested_sem) {
 		__CPROVER_assume((h == 0 || h == 2 || h == 4) && d <= DT_MAXP);      /* old header: none, TLV8, or TLV16 (possibly non-canonical); bound on the payload */
 		e->ftlv.hdr_len = h; e->ftlv.dat_len = d;
 		if (d == 0 && nondet_bool()) { e->ptr = NULL; e->ptr_own = 0; }        /* a fresh element without data */
-		else e->ptr = malloc(h + d + 1);
+		else e->ptr = malloc(4 + DT_MAXP + 1);      /* the old buffer extends beyond the element (as the parent's input does); constant size keeps CBMC's array encoding small */
 	}
 	g_old[x] = e->ptr; g_free_old[x] = 0;
 }
@@ -141,22 +165,27 @@ static size_t g_kw;
 } else { __CPROVER_assert(node_same(x), who ": not part of the tree, untouched"); } } while (0)
 
 void harness(void) {
-	int res, res2; size_t len2 = 0; unsigned char out2[3 * (4 + 2 * (4 + DT_MAXP)) + 4 + 8]; _Bool root_list = nondet_bool();
+	int res, res2; size_t len2 = 0; unsigned char out2[3 * (4 + 2 * (4 + DT_MAXP)) + 4 + 8]; _Bool root_list;
 	memset(&L_root, 0, sizeof(L_root)); memset(&L_nest, 0, sizeof(L_nest));
 	L_root.length = dt_length; L_root.elementAt = dt_elementAt; L_nest.length = dt_length; L_nest.elementAt = dt_elementAt;
-	n_kids = nondet_size(); n_g = nondet_size(); nest = nondet_size(); g_kw = nondet_size();
-	__CPROVER_assume(n_kids <= DT_KIDS && n_g <= DT_GKIDS && nest <= 3 && g_kw < DT_MAXP);     /* bound of the job */
+	g_kw = nondet_size();
+	__CPROVER_assume(g_kw < DT_MAXP);
+	/* the SHAPE of the tree is fixed per job (-DDT_NK = children of the root, -DDT_NEST = which child is nested (3: none),
+	 * -DDT_NG = its children): with a symbolic shape the real recursion does not unwind (every child pointer would be symbolic) */
+	n_kids = DT_NK; nest = DT_NEST; n_g = DT_NG;
+#ifdef DT_ROOT_LEAF
+	root_list = 0;
+#else
+	root_list = 1;
+#endif
 	if (!root_list) n_kids = 0;
 	if (nest >= n_kids) { nest = 3; n_g = 0; }
-#ifdef DT_NEST_AT
-	__CPROVER_assume(nest == DT_NEST_AT || nest == 3);                         /* case split on the position of the nested child */
-#endif
 	mk_node(0, root_list && n_kids > 0);
 	mk_node(1, nest == 0 && n_g > 0); mk_node(2, nest == 1 && n_g > 0); mk_node(3, nest == 2 && n_g > 0);
 	mk_node(4, 0); mk_node(5, 0);
 	N[0].subList = root_list ? &L_root : NULL;
 	if (nest < 3) N[1 + nest].subList = &L_nest;
-#define SNAP(x) do { N0[x] = N[x]; g_pay0[x] = (N[x].ptr != NULL && g_kw < N[x].ftlv.dat_len && N[x].ftlv.dat_len <= DT_MAXP) ? N[x].ptr[N[x].ftlv.hdr_len + g_kw] : 0; } while (0)
+#define SNAP(x) do { N0[x] = N[x]; g_pay0[x] = (!g_nested_sem[x] && N[x].ptr != NULL && g_kw < N[x].ftlv.dat_len) ? N[x].ptr[N[x].ftlv.hdr_len + g_kw] : 0; } while (0)
 	SNAP(0); SNAP(1); SNAP(2); SNAP(3); SNAP(4); SNAP(5);
 	g_dt_new = NULL; g_dt_new_size = 0; g_dt_malloc_calls = 0; g_dt_free_new = 0; g_dt_free_other = 0;
 
@@ -168,6 +197,11 @@ void harness(void) {
 	__CPROVER_assert(g_dt_free_other == 0, "detach: nothing foreign is released");
 	if (res == KSI_OK) {
 		__CPROVER_assert(g_dt_free_new == 0 && __CPROVER_r_ok(g_dt_new, tot_r()), "detach: the new buffer is live");
+#ifdef DT_PLACE_END
+		__CPROVER_assert(IMPLIES(g_dt_sw < DT_OBJ - tot_r(), g_dt_base[g_dt_sw] == g_dt_slack0), "detach: nothing is written in front of the new buffer (witness octet)");
+#else
+		__CPROVER_assert(IMPLIES(g_dt_sw >= tot_r(), g_dt_base[g_dt_sw] == g_dt_slack0), "detach: nothing is written behind the new buffer (witness octet)");
+#endif
 		NODE_ASSERTS(0, "detach: root");
 		NODE_ASSERTS(1, "detach: child 0"); NODE_ASSERTS(2, "detach: child 1"); NODE_ASSERTS(3, "detach: child 2");
 		NODE_ASSERTS(4, "detach: grandchild 0"); NODE_ASSERTS(5, "detach: grandchild 1");
@@ -195,17 +229,26 @@ void harness(void) {
 		__CPROVER_assert(g_dt_free_new == 0, "detach: failure -> nothing else released (the allocation had failed)");
 	}
 
-	if (res == KSI_OK && !root_list) REACH("leaf detached");
-	if (res == KSI_OK && root_list && n_kids == 0) REACH("element with an empty child list detached");
-	if (res == KSI_OK && n_kids == DT_KIDS) REACH("root with the maximal number of children");
-	if (res == KSI_OK && n_kids >= 2 && nest != 0 && N0[1].ftlv.hdr_len == 4 && N0[1].ftlv.tag <= 0x1f && N0[1].ftlv.dat_len > 0) REACH("non-last child whose old header was a non-canonical 4-octet header");
-	if (res == KSI_OK && n_kids >= 2 && N0[1].ftlv.hdr_len == 0) REACH("non-last child that was a bare payload (hdr_len 0)");
-#if DT_GKIDS > 0
-	if (res == KSI_OK && n_kids >= 2 && nest == 0 && n_g == DT_GKIDS) REACH("depth 2: nested first child with stale sizes, followed by a sibling");
-	if (res == KSI_OK && nest < 3 && nest + 1 == n_kids && n_g > 0) REACH("depth 2: nested last child");
-#endif
-	if (res == KSI_OK && N0[0].ptr_own && N0[0].ptr != NULL) REACH("root owned its old buffer");
-	if (res == KSI_OK && n_kids > 0 && N0[1].ptr_own && N0[1].ptr != NULL) REACH("a child owned its old buffer");
-	if (res == KSI_OK && N0[0].ftlv.tag > 0x1f && n_kids > 0) REACH("root with a 4-octet header");
+	if (res == KSI_OK) REACH("detached");
 	if (res == KSI_OUT_OF_MEMORY) REACH("allocation failure");
+	if (res == KSI_OK && N0[0].ptr_own && N0[0].ptr != NULL) REACH("root owned its old buffer");
+#ifdef DT_ROOT_LEAF
+	if (res == KSI_OK && N0[0].ftlv.hdr_len == 4 && N0[0].ftlv.tag <= 0x1f && N0[0].ftlv.dat_len == DT_MAXP) REACH("leaf with a non-canonical 4-octet header detached");
+	if (res == KSI_OK && N0[0].ptr == NULL) REACH("fresh element without data detached");
+#elif DT_NK == 0
+	if (res == KSI_OK && N0[0].ftlv.dat_len == DT_MAXP) REACH("element with an empty child list detached");
+#else
+	if (res == KSI_OK && N0[1].ptr_own && N0[1].ptr != NULL) REACH("a child owned its old buffer");
+	if (res == KSI_OK && N0[0].ftlv.tag > 0x1f) REACH("root with a 4-octet header");
+#if DT_NK >= 2 && DT_NEST != 0
+	if (res == KSI_OK && N0[1].ftlv.hdr_len == 4 && N0[1].ftlv.tag <= 0x1f && N0[1].ftlv.dat_len > 0) REACH("non-last child whose old header was a non-canonical 4-octet header");
+	if (res == KSI_OK && N0[1].ftlv.hdr_len == 0) REACH("non-last child that was a bare payload (hdr_len 0)");
+#endif
+#if DT_NG > 0 && DT_NEST == 0 && DT_NK >= 2
+	if (res == KSI_OK && N0[1].ftlv.hdr_len + N0[1].ftlv.dat_len != tot_c(0)) REACH("depth 2: nested first child with stale sizes, followed by a sibling");
+#endif
+#if DT_NG > 0 && DT_NEST + 1 == DT_NK
+	if (res == KSI_OK && nest + 1 == n_kids) REACH("depth 2: nested last child");
+#endif
+#endif
 }
